@@ -100,6 +100,27 @@ let dump_ts (t : tsh) =
   List.iter (fun c -> add " "; dump_cs c) t.cols;
   add ")"
 
+let dec_va (v : va) =
+  add (Printf.sprintf "%d:" (int_of_z (va_row_cnt v)));
+  (match va_get_values v with
+   | Ok o -> add "0:"; dump_obj (Some o)
+   | Err e -> add (Printf.sprintf "%d:" (int_of_z e)))
+let dec_cs (c : csh option) =
+  match c with None -> add "absent" | Some c ->
+    let vals = (match c.vals with Some v -> !v | None -> raise (Bad "cs without values")) in
+    add (Printf.sprintf "CSD(rows=%d " (int_of_z (va_row_cnt vals))); dec_va vals;
+    let snap : vah cs = { csvals = (match c.vals with Some x -> x | None -> raise (Bad "cs")); csprops = c.props; csowned = c.owned } in
+    List.iter (fun (n, _) ->
+        add " "; add (hex_of n);
+        (match cs_get_property snap n with
+         | Ok v -> add "=0:"; dec_va !v
+         | Err e -> add (Printf.sprintf "=%d:null" (int_of_z e)))) c.props;
+    add ")"
+let dec_ts (t : tsh) =
+  add "TSD(";
+  List.iteri (fun i c -> if i > 0 then add " "; dec_cs c) t.cols;
+  add ")"
+
 let status_of = function Ok _ -> 0 | Err e -> int_of_z e
 
 let subset_of (t : string) (n : int) : z list option =
@@ -295,7 +316,7 @@ let run_line (lineno : int) (tok : string array) =
      let s = get insT (h 1) in
      let ((l, e), rest') = read_slices !swp !cap s.rest (z_of_int n) sub s.rest in
      s.rest <- (if int_of_z e = int_of_z sBDF_TABLEEND then (match rest' with _ :: _ :: _ :: r -> r | _ -> []) else rest');
-     List.iter (fun x -> dump_ts (tsh_of x); add " ") l;
+     List.iter (fun x -> dump_ts (tsh_of x); add " "; dec_ts (tsh_of x); add " ") l;
      add (Printf.sprintf "end=%d n=%d" (int_of_z e) (List.length l))
    | "rcs" -> Hashtbl.remove css (h 2); rd 1 (cs_read !swp !cap) (fun c -> Hashtbl.replace css (h 2) (csh_of c))
    | "skcs" -> rd 1 (cs_skip !swp) (fun () -> ())
@@ -327,6 +348,38 @@ let run_line (lineno : int) (tok : string array) =
      let r = if op = "u2i" then utf8_to_iso s else iso_to_utf8 s in
      let n = List.length r + 1 in
      add (Printf.sprintf "%d %d %s" n n (hex_of (r @ [zb 0])))
+   | "strict" -> st 0
+   | "tsdec" -> (match Hashtbl.find_opt tss (h 1) with Some t -> dec_ts t | None -> add "null")
+   | "csdec" -> dec_cs (Hashtbl.find_opt css (h 1))
+   | "session" ->
+     let s = get insT (h 1) in
+     let mode = if ntok > 2 then tok.(2) else "*" in
+     (match fh_read s.rest with
+      | Err e -> add (Printf.sprintf "fh=%d" (int_of_z e))
+      | Ok ((ma, mi), r1) ->
+        add (Printf.sprintf "fh=0:%d.%d" (int_of_z ma) (int_of_z mi));
+        (match tm_read !swp !cap r1 with
+         | Err e -> s.rest <- r1; add (Printf.sprintf " tm=%d" (int_of_z e))
+         | Ok (t, r2) ->
+           add " tm=0 "; dump_tm t;
+           List.iteri (fun i m ->
+               if i < 64 then begin
+                 add (Printf.sprintf " c%d=" i);
+                 (match cm_get_name m with Ok nm -> add "0:"; add (hex_of nm) | Err e -> add (Printf.sprintf "%d:" (int_of_z e)));
+                 (match cm_get_type m with Ok ty -> add (Printf.sprintf ":0:%d" (int_of_z ty)) | Err e -> add (Printf.sprintf ":%d:0" (int_of_z e)))
+               end) t.tcols;
+           let ncols = List.length t.tcols in
+           let sub = if mode = "skip" then Some (List.init ncols (fun _ -> zb 0)) else subset_of mode ncols in
+           let ((l, e), r3) = read_slices !swp !cap r2 (z_of_int ncols) sub r2 in
+           let e = int_of_z e in
+           let r3 = if e = int_of_z sBDF_TABLEEND then (match r3 with _ :: _ :: _ :: r -> r | _ -> []) else r3 in
+           s.rest <- r3;
+           if mode <> "skip" then List.iter (fun x -> add " "; dump_ts (tsh_of x); add " "; dec_ts (tsh_of x)) l;
+           add (Printf.sprintf " end=%d n=%d" e (List.length l));
+           if e = int_of_z sBDF_TABLEEND then add (Printf.sprintf " pos=%d" (s.total - List.length r3));
+           let kept = if mode = "skip" then [] else List.filteri (fun i _ -> i < 64) l in
+           let (rw, bs) = run_w (write_table !swp { t_meta = t; t_slices = kept }) unlimited in
+           add (Printf.sprintf " rw=%d:%s" rw (hex_of bs))))
    | "allocfail" -> st 0
    | "allocs" | "live" -> ()
    | "noise" -> st 0
